@@ -1,5 +1,6 @@
 from .utils import is_zero
-from .qty import eval_qty
+from .qty import eval_qty, GenericQuantity
+from ..Error import UnitsError
 
 
 __all__ = ['with_units', 'in_units', 'has_units', 'to_SI_from', 'from_SI_to']
@@ -63,6 +64,13 @@ def in_units(qty, units):
     """
     if qty is None:
         return None
+    if not isinstance(qty, GenericQuantity):
+        # a dimensionless quantity ('cm/m', 'mol/mol') is a plain number
+        target = eval_qty(units)
+        if isinstance(target, GenericQuantity):
+            raise UnitsError("Units of '%s' are incompatible with '%s'"
+                             % (qty, units))
+        return qty/target
     return qty.in_units(units)
 
 
@@ -88,6 +96,9 @@ def has_units(qty, units):
     is_compatible : bool
         True if and only if the units of `qty` can be converted to `units`.
     """
+    if not isinstance(qty, GenericQuantity):
+        # a dimensionless quantity is a plain number
+        return not isinstance(eval_qty(units), GenericQuantity)
     return qty.has_units(units)
 
 
@@ -107,7 +118,8 @@ def to_SI_from(value, units):
     new_value : int or float
         Numerical value of SI units quantity
     """
-    return value*eval_qty(units).value
+    # (a dimensionless unit expression evaluates to a plain number)
+    return value*GenericQuantity._unpack_qty(eval_qty(units))[0]
 
 
 def from_SI_to(value, units):
@@ -126,4 +138,4 @@ def from_SI_to(value, units):
     new_value : int or float
         Numerical value of converted quantity.
     """
-    return value/eval_qty(units).value
+    return value/GenericQuantity._unpack_qty(eval_qty(units))[0]
